@@ -28,6 +28,15 @@
 #include <sys/stat.h>
 #include <dirent.h>
 
+#ifndef __has_feature
+#  define __has_feature(x) 0
+#endif
+#if defined(__SANITIZE_ADDRESS__) || __has_feature(address_sanitizer)
+#  define C05_SANITIZED 1
+#else
+#  define C05_SANITIZED 0
+#endif
+
 using namespace vf;
 using namespace stir;
 
@@ -1219,9 +1228,16 @@ check(const json& c)
     { // every order of first use of the six kinds of request, a fresh object per order
       std::vector<int> perm = { 0, 1, 2, 3, 4, 5 };
       Results first;
-      long n = 0;
+      long n = 0, run = 0;
       do
         {
+          // the ASan/UBSan build (about 15x slower) runs every 8th order only
+          if (C05_SANITIZED && n % 8 != 0)
+            {
+              ++n;
+              continue;
+            }
+          ++run;
           OpList l;
           for (int k : perm)
             l.ops.push_back(std::make_pair(PERM6[k], PERM6[k] == VALUE_S ? int(c["order_subset"].get<int>() % x.N) : int((n + k) % x.N)));
@@ -1241,8 +1257,8 @@ check(const json& c)
             }
           ++n;
       } while (std::next_permutation(perm.begin(), perm.end()));
-      stats().count("first-use orders run", n);
-      stats().cls("all 720 first-use orders");
+      stats().count("first-use orders run", run);
+      stats().cls(C05_SANITIZED ? "90 of the 720 first-use orders (sanitizer build)" : "all 720 first-use orders");
     }
   else
     {
